@@ -303,3 +303,70 @@ def pruned(cfg, assume):
     c = Cfg(raw)
     c.sig = getattr(cfg, "sig", "")
     return c
+
+
+def controlling(cfg, bid):
+    """branch decisions every entry -> `bid` path must take: [(cond sx, polarity, branch block id)].
+    An edge is controlling when removing it makes the block unreachable."""
+    res = []
+    for p, blk in cfg.blocks.items():
+        t = blk.get("term")
+        succ = blk["succ"]
+        if not t or len(succ) != 2 or t.get("kind") == "SwitchStmt" or t.get("cond") is None:
+            continue
+        if succ[0] == succ[1]:
+            continue
+        for k in (0, 1):
+            seen = set()
+            work = [cfg.entry]
+            while work:
+                b = work.pop()
+                if b in seen:
+                    continue
+                seen.add(b)
+                if b == bid:
+                    break
+                for j, s in enumerate(cfg.blocks[b]["succ"]):
+                    if s is None or (b == p and j == k):
+                        continue
+                    work.append(s)
+            if bid not in seen:
+                res.append((t["cond"], k == 0, p))
+    return res
+
+
+def must_state(cfg, gen_el=None, gen_edge=None, kill_el=None):
+    """forward must-dataflow of one boolean fact.  The fact is generated by elements satisfying gen_el and by edges
+    (bid, succ index) satisfying gen_edge, killed by elements satisfying kill_el; it holds at a point when it holds
+    on every path from the entry.  Returns state(bid, idx) -> bool = fact holds immediately before element idx."""
+    IN = {b: True for b in cfg.blocks}
+    IN[cfg.entry] = False
+
+    def flow(bid, upto=None):
+        s = IN[bid]
+        els = cfg.blocks[bid]["els"]
+        for i, el in enumerate(els if upto is None else els[:upto]):
+            if kill_el and kill_el(el):
+                s = False
+            if gen_el and gen_el(el):
+                s = True
+        return s
+    changed = True
+    while changed:
+        changed = False
+        for bid in cfg.blocks:
+            if bid == cfg.entry:
+                continue
+            ps = cfg.preds[bid]
+            v = True
+            for p in ps:
+                out = flow(p)
+                if not out and gen_edge:
+                    ks = [k for k, s in enumerate(cfg.blocks[p]["succ"]) if s == bid]
+                    if ks and all(gen_edge(p, k) for k in ks):
+                        out = True
+                v = v and out
+            if v != IN[bid]:
+                IN[bid] = v
+                changed = True
+    return lambda bid, idx: flow(bid, idx)
